@@ -76,8 +76,16 @@ impl View for AwarenessUpdate {
     type V = Map<ClientID, AuEnt>;
 
     open spec fn view(&self) -> Map<ClientID, AuEnt> {
-        self.clients@.map_values(|e: AwarenessUpdateEntry| (e.clock, e.json@))
+        au_view(self.clients@)
     }
+}
+
+pub open spec fn au_ent(e: AwarenessUpdateEntry) -> AuEnt {
+    (e.clock, e.json@)
+}
+
+pub open spec fn au_view(m: Map<ClientID, AwarenessUpdateEntry>) -> Map<ClientID, AuEnt> {
+    m.map_values(|e: AwarenessUpdateEntry| au_ent(e))
 }
 
 /// one entry: client as u64 var-int, clock as u32 var-int, JSON as length-prefixed string
@@ -124,9 +132,16 @@ pub proof fn lemma_au_item_bounded()
 
 pub proof fn lemma_au_view_insert(m: Map<ClientID, AwarenessUpdateEntry>, c: ClientID, e: AwarenessUpdateEntry)
     ensures
-        m.insert(c, e).map_values(|e: AwarenessUpdateEntry| (e.clock, e.json@)) == m.map_values(|e: AwarenessUpdateEntry| (e.clock, e.json@)).insert(c, (e.clock, e.json@)),
+        au_view(m.insert(c, e)) == au_view(m).insert(c, au_ent(e)),
 {
-    assert(m.insert(c, e).map_values(|e: AwarenessUpdateEntry| (e.clock, e.json@)) =~= m.map_values(|e: AwarenessUpdateEntry| (e.clock, e.json@)).insert(c, (e.clock, e.json@)));
+    assert(au_view(m.insert(c, e)) =~= au_view(m).insert(c, au_ent(e)));
+}
+
+pub proof fn lemma_au_view_empty()
+    ensures
+        au_view(Map::<ClientID, AwarenessUpdateEntry>::empty()) == Map::<ClientID, AuEnt>::empty(),
+{
+    assert(au_view(Map::<ClientID, AwarenessUpdateEntry>::empty()) =~= Map::<ClientID, AuEnt>::empty());
 }
 
 impl Decode for AwarenessUpdate {
@@ -156,7 +171,7 @@ impl Decode for AwarenessUpdate {
             lemma_suffix_refl(s1);
             lemma_dec_list_start(au_item(), s1, len as nat);
             assert(s1.skip(0) =~= s1);
-            assert(Map::<ClientID, AwarenessUpdateEntry>::empty().map_values(|e: AwarenessUpdateEntry| (e.clock, e.json@)) =~= Map::<ClientID, AuEnt>::empty());
+            lemma_au_view_empty();
         }
     @loop 1 iter=it
         invariant
@@ -168,7 +183,7 @@ impl Decode for AwarenessUpdate {
             it.snapshot@.remaining().len() == len,
             0 <= it.index@ <= len,
             items.len() == it.index@,
-            clients@.map_values(|e: AwarenessUpdateEntry| (e.clock, e.json@)) == map_of(items),
+            au_view(clients@) == map_of(items),
             decoder.rest().len() + 3 * it.index@ <= s1.len(),
             <usize as VarInt>::dec(s0) is Some && <usize as VarInt>::dec(s0)->Some_0.0 == len && s1 == s0.skip(<usize as VarInt>::dec(s0)->Some_0.1 as int),
             kk <= s1.len() && decoder.rest() == s1.skip(kk as int)
